@@ -55,3 +55,5 @@ def run(rep, ctx):
     if not getattr(ctx, 'variant', None):
         run_liveness(rep, ctx.fx, ['N'])
     n = c01.run_N(rep, g, scope, scope_name='primitive codec (leb128, Reader defaults, ReaderOffset impls, Endianity, Writer defaults)', floor=8)
+    from ..guards import run_X_leb
+    run_X_leb(rep, ctx.g)
